@@ -6,7 +6,9 @@
    correspondence on LF/CRLF pairs, not by a theorem. *)
 From Coq Require Import String List NArith Bool.
 From CMinx Require Import Base.Str Model.Lexer Model.Parser Model.Aggregator Model.Pipeline
-     Proofs.LexerFacts Proofs.PipelineFacts Proofs.AggInv Proofs.CleanFacts Proofs.LayoutFacts.
+     Proofs.LexerFacts Proofs.PipelineFacts Proofs.AggInv Proofs.CleanFacts Proofs.LayoutFacts
+     Gen.GrammarSource Proofs.GrammarBaseline Proofs.GrammarPins
+     Model.Writer Proofs.CrlfFacts.
 Import ListNotations.
 
 (* any edit that keeps the visible token sequence keeps the page (or the error) *)
@@ -131,3 +133,42 @@ Theorem C04_crlf_partial :
     lex_sim (lex (crlf x)) (lex x).
 Proof. exact lex_crlf. Qed.
 Print Assumptions C04_crlf_partial.
+
+(* ---- the grammar: CMake.g4 and the generated lexer/parser (serialised ATN) that run now are those
+   the model's lexer and parser were written from and validated against; the model's rule order,
+   token numbering and skip set are the grammar's (Gen/GrammarSource.v regenerated every run) ---- *)
+Theorem C04_grammar_unchanged :
+  g4_rules = base_g4_rules /\ lexer_atn = base_lexer_atn /\ parser_atn = base_parser_atn.
+Proof. exact (conj g4_rules_unchanged (conj lexer_atn_unchanged (proj2 parser_unchanged))). Qed.
+Print Assumptions C04_grammar_unchanged.
+
+Theorem C04_model_rules_are_grammar_rules :
+  map (fun r => kind_name (fst r)) rules = token_rule_names
+  /\ map (fun r => kind_id (fst r)) rules = seq 1 (length token_rule_names)
+  /\ map (fun r => kind_name (fst r)) (filter (fun r => skipped (fst r)) rules) = g4_skipped.
+Proof. exact (conj model_rules_are_grammar_rules (conj model_token_numbers model_skip_set)). Qed.
+Print Assumptions C04_model_rules_are_grammar_rules.
+
+(* ---- the CRLF clause for doccomments (Proofs/CrlfFacts.v).  crlf_lines ind L are the lines of
+   the Docstring token of a canonical block in a CRLF file, split at LF: every line but the last
+   ends in CR.  norm_lines removes one trailing CR per line and drops whitespace-only lines: what
+   the property allows to change. ---- *)
+Theorem C04_crlf_doc_exact :
+  forall ind L, forallb is_sptab' ind = true ->
+    clean_doc_lines (crlf_lines ind L)
+    = join [nl] (crlf_first ind ++ map (fun l => l ++ [cr]) L ++ [[]]).
+Proof. exact clean_crlf_general. Qed.
+Print Assumptions C04_crlf_doc_exact.
+
+Theorem C04_crlf_doc_same_modulo_line_endings :
+  forall ind L, forallb is_sptab' ind = true -> Forall (fun l => last_opt l <> Some cr) L ->
+    norm_lines (clean_doc_lines (crlf_lines ind L)) = norm_lines (clean_doc_lines (canon_lines ind L)).
+Proof. exact clean_crlf_same_modulo_line_endings_gen. Qed.
+Print Assumptions C04_crlf_doc_same_modulo_line_endings.
+
+Theorem C04_crlf_paragraph_same_modulo_line_endings :
+  forall d ind L, forallb is_sptab' ind = true -> Forall (fun l => last_opt l <> Some cr) L ->
+    norm_lines (para_text d (clean_doc_lines (crlf_lines ind L)))
+    = norm_lines (para_text d (clean_doc_lines (canon_lines ind L))).
+Proof. exact para_crlf_same_modulo_line_endings_gen. Qed.
+Print Assumptions C04_crlf_paragraph_same_modulo_line_endings.
